@@ -12,6 +12,26 @@ CHECKS = {
             "Trusted: the Python reference (ref_num.py) and the canonical encoder hook. Operands outside the alphabet are not covered; "
             "inexact n-ary folds, float formatting and (/ x 0) with inexact x are left unspecified.",
             "DESIGN.md §3 C10"),
+    "C15": ("model_checking",
+            "stateless depth-first exploration of every schedule with at most 2 preemptions of multi-threaded drivers on the real VM under a controlled scheduler (hook H7 gates; one scheduling point per gate; fresh forked engine per schedule), with in-scheduler scan-window oracle and a sequential-consistency reference for results",
+            "Gates: every instruction dispatch, every step of entering and leaving a safepoint (publish, finished, park, retract, left), every step of stopping, waiting for, scanning and "
+            "resuming the world, thread start / exit / spawn. 16 two-thread and 5 three-thread drivers built from {assign g, read g, full collection, allocate, primitive call, loop, define}. "
+            "Oracle (i): no thread passes an instruction-dispatch or safepoint-left gate while another thread is between scan-begin and scan-end on its state; (ii) the values read by all "
+            "threads and the final g are the result of some interleaving of the script-level reads and writes. Preemption bound 2 (three threads: 1; thorough: 2). Blocking in native code "
+            "is recognised from the kernel state of the thread (sleeping for 5 consecutive 1 ms polls); woken threads are waited for before the next choice so enabled sets do not depend "
+            "on timing; replays that diverge are counted, not judged.",
+            "Sequentially consistent interleavings at gate granularity only: reorderings of the relaxed flag accesses are not explored. More than 3 threads, longer drivers and higher bounds "
+            "are outside; thread teardown after the last gate runs uncontrolled (small run-to-run variation of the schedule count for drivers with collections).",
+            "DESIGN.md §3 C15"),
+    "C16": ("model_checking",
+            "the same controlled scheduler and stateless depth-first exploration as C15 (preemption bound 2; three threads 1) over drivers in which world-stopping operations meet each other and blocked, exiting and starting threads; progress oracle in the scheduler (deadlock / livelock / hang) and allowed-result sets for joins, channels and mutexes",
+            "18 drivers x {native code on, off}: two / three threads assigning or defining globals and collecting at the same time; a thread blocked in thread-join!, channel/recv (directly and "
+            "from inside map), lock-acquire! or a sleep while another stops the world; a thread exiting or being spawned (also by a spawned thread) during a collection; producers and a consumer on "
+            "a channel with collections in between; joining twice. Oracle: the evaluation completes (no runnable thread for 1.5 s with unfinished threads = deadlock; only spinning threads "
+            "runnable for 1.5 s = livelock; 20 s = hang) and its value is allowed by the script's logic (every sent value received once and in order per sender, join result once, second join "
+            "an error value, mutex-protected counter exact).",
+            "Same bounds as C15. 4..8 threads are outside the exploration.",
+            "DESIGN.md §3 C16"),
     "C17": ("exploration",
             "exhaustive enumeration of interrupt arrival points at gate granularity on the real engine: program shape x execution tier x k-th gate (hook H7) at which the request is issued from inside the hook callback",
             "37 long-running program shapes (tail / mutual / named-let / do loops, recursion, loops driven by map, foldl, for-each, filter, sort, transduce callbacks, endless loops "
